@@ -23,3 +23,24 @@ package main
 //@   loop 1 "range c.Args().Slice()"
 //@     invariant #same c == c0 && dash == -1
 //@     invariant #C10.none-so-far forall i int :: 0 <= i && i <= rangeindex ==> argsSlice(ctxArgs(c))[i] != "--"
+
+// ---- C14: the CLI shuts the contexts down whether or not the target failed
+//@ func runTask
+//@   requires t != nil && taskRunner != nil && runnerOK(taskRunner) && taskOK(t) && compiledClosed()
+//@   modifies *
+//@   ensures #C14.finish-on-every-path calls(Finish) == 1 && calls(Run) == 1
+//@   callsite Finish
+//@     requires #C14.finish-after-run returned(Run) == 1
+//@ func printSummary
+//@   requires g != nil
+//@   modifies *
+//@ func runPipeline
+//@   requires taskRunner != nil && schedulable(g)
+//@   modifies *
+//@   ensures #C14.finish-on-every-path calls(Finish) == 1 && calls(Schedule) == 1
+//@   callsite Finish
+//@     requires #C14.finish-after-run returned(Schedule) == 1
+// the goroutine that forwards an abort to the scheduler
+//@ func runPipeline$1
+//@   requires sd != nil && sd.taskRunner != nil
+//@   modifies *
